@@ -2,6 +2,7 @@ package main
 
 import (
 	"fmt"
+	"go/types"
 	"os"
 	"strings"
 
@@ -94,43 +95,76 @@ func checkC10(c *Ctx) (string, []string) {
 		c.checkShapes("C10.collapse", "PVM.C", f, rs, map[string][]string{
 			"ret#0": {"p2.ResultContextX.PartialState", "p2.ResultContextY.PartialState"},
 			"ret#1": {"p2.ResultContextX.DeferredTransfers", "p2.ResultContextY.DeferredTransfers"},
-			"ret#2": {"alloc:types.OpaqueHash", "p2.ResultContextX.Exception", "p2.ResultContextY.Exception"},
 			"ret#3": {"p0"},
 			"ret#5": {"*p2.ResultContextX.StorageKeyVal", "*p2.ResultContextY.StorageKeyVal"},
 		})
-		// per return: all context-derived results come from the same context, and the arm matches
+		// the yielded hash: a context's own, or the 32-byte return value of the invocation
+		{
+			ro := robustOpts
+			okY := true
+			var ys []string
+			for _, s := range abbrMap(returnShapesO(f, ro))["ret#2"] {
+				for _, a := range expandAlts(looseForm(s)) {
+					ys = append(ys, a)
+					if !(a == "p2.ResultContextX.Exception" || a == "p2.ResultContextY.Exception" || a == "alloc:types.OpaqueHash" || a == "nil" || strings.Contains(a, "p1.([]byte)")) {
+						okY = false
+					}
+				}
+			}
+			c.Check(okY && len(ys) > 0, "C10.collapse", "PVM.C · ret#2", f.Pos(), "yielded hash is a context's own or the 32-byte return value", fmt.Sprintf("the yielded hash can be %v", uniqSorted(ys)))
+		}
+		// per return: all context-derived results come from the same context (helpers seen through); a context chosen once and handed to a helper is one context
+		nret := 0
 		allInstrs(f, func(in ssa.Instruction) {
 			r, ok := in.(*ssa.Return)
 			if !ok {
 				return
 			}
+			nret++
 			res := retResults(r)
 			ctx := ""
 			consistent := true
-			for _, i := range []int{0, 1, 2, 5} {
-				s := exprStr(res[i], shapeOpts)
-				var k string
+			ctxOf := func(s string) string {
+				hasX, hasY := strings.Contains(s, "ResultContextX"), strings.Contains(s, "ResultContextY")
 				switch {
-				case strings.Contains(s, "ResultContextX"):
-					k = "X"
-				case strings.Contains(s, "ResultContextY"):
-					k = "Y"
-				case i == 2:
-					k = "X" // the 32-byte override belongs to the X arm
+				case hasX && hasY:
+					// one pointer chosen between the two and used for every result is one context
+					chooser := "phi(p2.ResultContextX | p2.ResultContextY)"
+					if strings.Count(s, chooser) >= 1 && strings.Count(s, "ResultContextX") == strings.Count(s, chooser) && strings.Count(s, "ResultContextY") == strings.Count(s, chooser) {
+						return "chosen once"
+					}
+					return "mixed"
+				case hasX:
+					return "X"
+				case hasY:
+					return "Y"
+				}
+				return ""
+			}
+			for _, i := range []int{0, 1, 2, 4, 5} {
+				s := looseForm(abbr(exprStr(res[i], robustOpts)))
+				if i == 2 && !strings.Contains(s, "ResultContext") {
+					continue // the 32-byte override alone
+				}
+				k := ctxOf(s)
+				if k == "" || k == "mixed" {
+					consistent = false
+					continue
 				}
 				if ctx == "" {
 					ctx = k
 				} else if k != ctx {
+					// within one return, "X" from a direct arm and a chooser term never mix
 					consistent = false
 				}
 			}
-			// blobs: the range source
-			blobs := exprStr(res[4], shapeOpts)
-			if !strings.Contains(blobs, "ResultContext"+ctx+".ServiceBlobs") {
-				consistent = false
+			var seen []string
+			for _, i := range []int{0, 1, 2, 4, 5} {
+				seen = append(seen, looseForm(abbr(exprStr(res[i], robustOpts))))
 			}
-			c.Check(consistent, "C10.collapse", fmt.Sprintf("PVM.C · return b%d uses one context (%s)", in.Block().Index, ctx), in.Pos(), "all results from context "+ctx, "a return mixes results of the regular and the checkpoint context")
+			c.Check(consistent, "C10.collapse", fmt.Sprintf("PVM.C · return #%d uses one context", nret), in.Pos(), "all results from context "+ctx, "a return mixes results of the regular and the checkpoint context: "+strings.Join(seen, " ;; "))
 		})
+		c10Arms(c, f)
 	}
 
 	c.Rule("C10.g-writes-x", "G (used by wrapWithG) writes only X's service map at X's own service id", 1)
@@ -145,4 +179,74 @@ func checkC10(c *Ctx) (string, []string) {
 	}
 	return "Checkpoint/rollback mechanisms decided statically: type-directed flow analysis of the three DeepCopy methods (no mutable storage shared, every field set), the checkpoint context written only by checkpoint from X.DeepCopy() after the gas charge, disjoint roots of X and Y in Psi_A, the collapse function taking all results from one context per arm, G writing only X. Does not decide that each host call mutates the right fields.",
 		[]string{"[]byte payloads are never written in place by host calls (so sharing them is not aliasing of mutable state)", "canonical expression rendering"}
+}
+
+// c10Arms: the context is Y exactly for a system error, OUT_OF_GAS or PANIC, and X otherwise —
+// decided on the type switch of C: every PartialState result (or the context pointer handed
+// to a helper) that is reached behind the "error value" or the OUT_OF_GAS / PANIC test is Y's.
+func c10Arms(c *Ctx, f *ssa.Function) {
+	// edges on which the invocation result is known to be an exceptional one
+	exc := condEdges(f, func(v ssa.Value) (bool, bool) {
+		s := abbr(exprStr(v, shapeOpts))
+		switch {
+		case strings.Contains(s, ".(error)#1"):
+			return true, true
+		case strings.Contains(s, "== PVM.OUT_OF_GAS") || strings.Contains(s, "PVM.OUT_OF_GAS ==") || strings.Contains(s, "== PVM.PANIC") || strings.Contains(s, "PVM.PANIC =="):
+			return true, true
+		}
+		for _, name := range []string{"OUT_OF_GAS", "PANIC"} {
+			if k, ok := c.Obj("PVM", name).(*types.Const); ok {
+				kv := k.Val().ExactString()
+				if s == "("+kv+" == p1)" || s == "(p1 == "+kv+")" {
+					return true, true
+				}
+			}
+		}
+		return false, false
+	})
+	// uses of a context: loads of fields of ResultContextX / ResultContextY, or their addresses passed on
+	kinds := map[string]bool{}
+	for _, e := range exc {
+		if ifi, ok := e.from.Instrs[len(e.from.Instrs)-1].(*ssa.If); ok {
+			kinds[abbr(exprStr(ifi.Cond, shapeOpts))] = true
+		}
+	}
+	okArms := len(kinds) >= 3 // system error, OUT_OF_GAS and PANIC are each tested
+	nX, nY := 0, 0
+	allInstrs(f, func(in ssa.Instruction) {
+		fa, ok := in.(*ssa.FieldAddr)
+		if !ok {
+			return
+		}
+		name := fieldName(fa.X.Type(), fa.Field)
+		if name != "ResultContextX" && name != "ResultContextY" {
+			return
+		}
+		behindExc := guardedBy(f, fa, exc)
+		if name == "ResultContextY" {
+			nY++
+			if !behindExc && !onlyInPhi(fa) {
+				okArms = false
+			}
+		} else {
+			nX++
+			if behindExc {
+				okArms = false
+			}
+		}
+	})
+	c.Check(okArms && nX > 0 && nY > 0, "C10.collapse", "PVM.C · arms", f.Pos(), "the checkpoint context is used only behind the error / OUT_OF_GAS / PANIC tests, the regular context never behind them", "the collapse does not select Y exactly for error, OUT_OF_GAS and PANIC")
+}
+
+// onlyInPhi: the address is computed ahead of the branches and only chosen by a phi.
+func onlyInPhi(v ssa.Value) bool {
+	if v.Referrers() == nil {
+		return false
+	}
+	for _, r := range *v.Referrers() {
+		if _, ok := r.(*ssa.Phi); !ok {
+			return false
+		}
+	}
+	return true
 }
